@@ -585,6 +585,25 @@ def _iou_glitch(st):
     return False
 
 
+def _strip_aph(metrics):
+    m = copy.deepcopy(metrics)
+    for mp in m.get("maps", []):
+        mp["aph"] = None
+        mp["maph"] = None
+    return m
+
+
+def _tilted_gt(st):
+    """Does some ground truth of this step have a box that is not level (roll / pitch)?"""
+    if st.result is None:
+        return False
+    for g in st.result.frame_ground_truth.objects:
+        up = rm.q_rotate(rm.q_normalize(V.quat_of(g)), (0.0, 0.0, 1.0))
+        if up[2] < 1.0 - 1e-9:
+            return True
+    return False
+
+
 def check_frame_twin(ctx, lane):
     """C07: the same plan evaluated with everything expressed in the other coordinate frame."""
     other = "map" if lane.frame == "base_link" else "base_link"
@@ -630,8 +649,11 @@ def check_frame_twin(ctx, lane):
             if margin < max(a.eps, b.eps):
                 ctx.skip("c07_indeterminate")
                 return  # later steps may legitimately differ as a consequence (tracking predecessor)
+            aph_only = all(D.diff(da[k_], db[k_], 1e-6, k_) is None for k_ in ("results", "gt", "tp", "fp", "fn", "tn", "scores")) and \
+                D.diff(_strip_aph(da["metrics"]), _strip_aph(db["metrics"]), 1e-6) is None
             ctx.violate("C07", "frame_independent", "ego-frame and map-frame evaluation of one scene disagree (%s)" % d.split(":")[0].split("/")[0].split("[")[0],
-                        {"diff": d[:300], "margin": margin, "ego": list(a.ego_ref)}, a.index)
+                        {"diff": d[:300], "margin": margin, "ego": list(a.ego_ref),
+                         "explained_by_aph_of_tilted_ground_truth": bool(aph_only and (_tilted_gt(a) or _tilted_gt(b)))}, a.index)
             return
         if da["results"]:
             ctx.probe("c07_nontrivial")
@@ -639,9 +661,13 @@ def check_frame_twin(ctx, lane):
     for sa, sb in zip(lane.scene_scores, twin.scene_scores):
         if sa["score"] is None or sb["score"] is None:
             continue
-        d = D.diff(D.metrics_digest(sa["score"]), D.metrics_digest(sb["score"]), 1e-6)
+        ma, mb = D.metrics_digest(sa["score"]), D.metrics_digest(sb["score"])
+        d = D.diff(ma, mb, 1e-6)
         if d:
-            ctx.violate("C07", "frame_independent", "scene scores of the ego-frame and map-frame executions disagree", {"diff": d[:300]}, sa["index"])
+            aph_only = D.diff(_strip_aph(ma), _strip_aph(mb), 1e-6) is None
+            tilted = any(_tilted_gt(x) for x in lane.steps) or any(_tilted_gt(x) for x in twin.steps)
+            ctx.violate("C07", "frame_independent", "scene scores of the ego-frame and map-frame executions disagree",
+                        {"diff": d[:300], "explained_by_aph_of_tilted_ground_truth": bool(aph_only and tilted)}, sa["index"])
             return
 
 
